@@ -6,7 +6,7 @@
 From Coq Require Import NArith ZArith List Bool Lia.
 Import ListNotations.
 From CA Require Import Model.Lexer Model.Parser Model.Literal Model.BigIntOps Model.Evaluator Model.Matcher Model.Resolver
-  Model.StaticKnown Model.ResolverS Spec.StaticSpec Proofs.EvalSemP.
+  Model.StaticKnown Model.ResolverS Spec.StaticSpec Proofs.EvalSemP Proofs.ResolverFixP.
 Open Scope Z_scope.
 
 (* ---------- the locals only grow during an evaluation ---------- *)
@@ -434,3 +434,20 @@ Proof.
       stepv Hr v1 c1. eapply IH; eauto.
 Qed.
 End ClosedValue.
+
+(* ---------- calls: only the listed built-in functions can make a call statically known ---------- *)
+Theorem call_known_only_listed L G f args : expr_known L G (ECall f args) = true ->
+  exists n, f = EVar 0%N [n] /\ known_value_builtin n || known_asm_builtin n = true.
+Proof.
+  cbn [expr_known]. destruct f; try discriminate. destruct level; try discriminate.
+  match goal with |- (if ?c then _ else _) = true -> _ => destruct c; [|discriminate] end.
+  destruct path as [|n [|? ?]]; try discriminate. eauto.
+Qed.
+
+Theorem listed_functions n : known_value_builtin n || known_asm_builtin n = true ->
+  In n [s_sizeof; s_le; s_ascii; s_utf8; s_utf16be; s_utf16le; s_utf32be; s_utf32le; s_strlen; s_incbin; s_incbinstr; s_inchexstr].
+Proof.
+  unfold known_value_builtin, known_asm_builtin. destruct (text_eqb n s_assert); cbn [orb].
+  - intro H. repeat (apply orb_prop in H; destruct H as [H|H]); apply ResolverFixP.text_eqb_eq in H; subst; cbn; tauto.
+  - intro H. repeat (apply orb_prop in H; destruct H as [H|H]); apply ResolverFixP.text_eqb_eq in H; subst; cbn; tauto.
+Qed.
